@@ -154,6 +154,13 @@ inductive Op
 
 abbrev Out := Except Err (List Nat)
 
+instance : DecidableEq Out := fun a b =>
+  match a, b with
+  | .ok x, .ok y => if h : x = y then isTrue (by rw [h]) else isFalse (fun e => h (by cases e; rfl))
+  | .error x, .error y => if h : x = y then isTrue (by rw [h]) else isFalse (fun e => h (by cases e; rfl))
+  | .ok _, .error _ => isFalse (fun e => by cases e)
+  | .error _, .ok _ => isFalse (fun e => by cases e)
+
 /-- `cdatagcp_finalize` / the tail of `cdatagcp_dealloc`: empty both slots,
 call the destructor if there was one. -/
 def finalizeGcp (o : Obj) : Obj :=
